@@ -103,6 +103,13 @@ def load_units():
     for u in units:
         if u['name'] in ('htp_tx_state_request_complete_partial', 'htp_tx_state_request_complete', 'htp_tx_state_response_complete_ex') and 'C06' not in u['props']:
             u['props'].append('C06')
+    # the completion transitions also carry the hand-over protocol between the two directions (C09: DATA_OTHER is answered only while the other side
+    # really waits for THIS transaction, else the two drivers would ping-pong) and the CONNECT hand-over (C16)
+    for u in units:
+        if u['name'] in ('htp_tx_state_request_complete', 'htp_tx_state_response_complete_ex'):
+            for p in ('C09', 'C16'):
+                if p not in u['props']:
+                    u['props'].append(p)
     names = [u['name'] for u in units]
     dup = set(n for n in names if names.count(n) > 1)
     if dup:
